@@ -28,10 +28,13 @@ ValsT(ty) == CASE ty = "u8"    -> {FV(TRUE, 7, <<>>, <<>>), FV(TRUE, 200, <<>>, 
                [] ty = "e2au"  -> {FV(TRUE, 0, <<>>, [var |-> 1, fv |-> <<None>>]), FV(TRUE, 0, <<>>, [var |-> 1, fv |-> <<FV(TRUE, 3, <<>>, <<>>)>>]),
                                    FV(TRUE, 0, <<>>, [var |-> 2, fv |-> <<FV(TRUE, 9, <<>>, <<>>)>>])}
                [] ty = "io"    -> {FV(TRUE, 0, <<>>, [var |-> 1, fv |-> <<>>]), FV(TRUE, 0, <<>>, [var |-> 2, fv |-> <<>>])}
+               [] ty = "eu"    -> {FV(TRUE, 0, <<>>, [var |-> 1, fv |-> <<>>]), FV(TRUE, 0, <<>>, [var |-> 2, fv |-> <<>>])}
+               [] ty = "eux"   -> {FV(TRUE, 0, <<>>, [var |-> 2, fv |-> <<>>]), FV(TRUE, 0, <<>>, [var |-> 3, fv |-> <<>>]), FV(TRUE, 0, <<>>, [var |-> 4, fv |-> <<FV(TRUE, 9, <<>>, <<>>)>>])}
+               [] ty \in CodTys -> {FV(TRUE, 7, <<>>, <<>>), FV(TRUE, 24, <<>>, <<>>)}
                [] ty = "iox"   -> {FV(TRUE, 0, <<>>, [var |-> 1, fv |-> <<>>]), FV(TRUE, 0, <<>>, [var |-> 3, fv |-> <<>>])}
 ValsF(f) == IF f.skip THEN {FV(TRUE, 0, <<>>, <<>>)}
             ELSE IF f.ty = "cu" THEN ValsT("cu") \cup (IF f.opt THEN {FV(TRUE, CuNil, <<>>, <<>>)} ELSE {})
-            ELSE ValsT(f.ty) \cup (IF f.opt THEN {None} ELSE {})
+            ELSE ValsT(f.ty) \cup (IF f.opt \/ f.ty \in CodTys THEN {None} ELSE {})
 RECURSIVE ValsFields(_, _)
 ValsFields(fs, i) == IF i > Len(fs) THEN {<<>>} ELSE { <<x>> \o rest : x \in ValsF(fs[i]), rest \in ValsFields(fs, i + 1) }
 ValsS(S) == IF S.kind = "struct" THEN ValsFields(S.fields, 1)
@@ -68,6 +71,15 @@ OptSpell == { Struct(e, -1, "named", <<F(0, FALSE, -1, "u8"), Fo(1, t, ty, sp), 
             \cup { Struct(e, -1, "named", <<Fo(0, -1, "u8", sp)>>) : e \in Encs, sp \in {"boxed", "alias", "generic"} }
             \cup { Enum(e, -1, FALSE, <<Variant(0, e, -1, "unit", <<>>), Variant(1, ve, -1, "named", <<F(0, FALSE, -1, "u8"), Fo(1, -1, "u8", sp)>>)>>) :
                     e \in Encs, ve \in Encs, sp \in {"boxed", "alias"} }
+\* forwarding codecs without a nil of their own (CodTys): spelled Option (optional), boxed / aliased (mandatory, None is written as null);
+\* in the middle, at the end (nothing is trimmed), tagged, in both encodings and inside a variant
+Fc(idx, tag, ty, sp) == [idx |-> idx, opt |-> (sp = "plain"), tag |-> tag, ty |-> ty, skip |-> FALSE, osp |-> sp]
+Codecs == { Struct(e, -1, sh, <<F(0, FALSE, -1, "u8"), Fc(1, t, ty, sp), F(3, TRUE, -1, "u8")>>) :
+              e \in Encs, sh \in {"named", "tuple"}, t \in {-1, 7}, ty \in CodTys, sp \in {"plain", "boxed", "alias"} }
+          \cup { Struct(e, -1, "named", <<F(0, TRUE, -1, "u8"), Fc(2, -1, ty, sp)>>) : e \in Encs, ty \in CodTys, sp \in {"plain", "boxed", "alias"} }
+          \cup { Enum(e, -1, FALSE, <<Variant(0, e, -1, "unit", <<>>), Variant(1, ve, -1, "tuple", <<F(0, FALSE, -1, "u8"), Fc(1, -1, ty, sp)>>)>>) :
+                  e \in Encs, ve \in Encs, ty \in {"pcd", "pce"}, sp \in {"boxed", "alias"} }
+CodecsQ == { S \in Codecs : S.kind = "enum" \/ (S.shape = "tuple" => S.fields[2].tag = -1 /\ S.fields[2].ty \in {"pcd", "pcw"}) }
 \* fields that borrow from the decoding input
 Borrowing == { Struct(e, -1, "named", <<F(0, FALSE, -1, "u8"), F(1, o, t, bty)>>) : e \in Encs, o \in BOOLEAN, t \in {-1, 7}, bty \in {"bstr", "bslice", "bu8"} }
              \cup { Struct(e, -1, sh, <<F(0, FALSE, -1, "cowbu8"), F(1, TRUE, -1, "u8")>>) : e \in Encs, sh \in {"named", "tuple"} }
@@ -88,8 +100,8 @@ EnumsQ == { S \in EnumsF : (S.tag = 7 => S.variants[2].tag = -1) /\ (S.variants[
 Big(e) == Struct(e, -1, "named", [i \in 1..25 |-> F(i - 1, TRUE, -1, "u8")])
 BigVals == { [i \in 1..25 |-> IF i \in s THEN FV(TRUE, 7, <<>>, <<>>) ELSE None] : s \in {{}, {1}, {24}, {25}, {1, 25}, 1..23, 1..24, 1..25, 2..25} }
 
-Family == IF Tier = "quick" THEN { S \in OneFieldQ : S.fields[1].idx = 0 \/ S.fields[1].ty \in {"u8", "e2", "cu"} } \cup { S \in ThreeFieldsQ : S.shape = "named" } \cup Misc \cup WideIdx \cup WideTags \cup EnumsQ \cup EnumsSame \cup OptSpell \cup Borrowing
-          ELSE OneFieldQ \cup ThreeFieldsQ \cup Misc \cup WideIdx \cup WideTags \cup EnumsQ \cup EnumsSame \cup OptSpell \cup Borrowing
+Family == IF Tier = "quick" THEN { S \in OneFieldQ : S.fields[1].idx = 0 \/ S.fields[1].ty \in {"u8", "e2", "cu"} } \cup { S \in ThreeFieldsQ : S.shape = "named" } \cup Misc \cup WideIdx \cup WideTags \cup EnumsQ \cup EnumsSame \cup OptSpell \cup Borrowing \cup CodecsQ
+          ELSE OneFieldQ \cup ThreeFieldsQ \cup Misc \cup WideIdx \cup WideTags \cup EnumsQ \cup EnumsSame \cup OptSpell \cup Borrowing \cup Codecs
 
 \* ---- compatible changes (reader schemas derived from a writer schema) ----
 SetField(S, i, f) == [S EXCEPT !.fields[i] = f]
@@ -108,10 +120,10 @@ Readers(S) == { DropField(S, i) : i \in { j \in 1..Len(S.fields) : S.fields[j].o
               \* ... and one whose codec is a user function without a nil of its own (Option<Vec<u8>> with = minicbor::bytes), tagged and untagged
               \cup { AddField(S, F(n, TRUE, t, "bytes")) : n \in FreeIdx(S), t \in {-1, 7} }
 \* nested enums used as optional fields: the writer knows more variants / has turned a unit variant into a struct variant
-HostTys == {"e2", "e2x", "e2u", "io", "iox", "e2m", "e2mu", "e2a", "e2au"}
+HostTys == {"e2", "e2x", "e2u", "io", "iox", "e2m", "e2mu", "e2a", "e2au", "eu", "eux"}
 \* (the optional enum field in every spelling: Option<E>, Box<Option<E>>, a type alias, a type parameter)
 EnumHosts == { Struct(e, -1, "named", <<F(0, FALSE, -1, "u8"), Fo(1, -1, ty, sp), F(2, TRUE, -1, "u8")>>) : e \in Encs, ty \in HostTys, sp \in {"plain", "boxed", "alias", "generic"} }
-CompatTy(a, b) == a = b \/ {a, b} \in {{"e2", "e2x"}, {"e2", "e2u"}, {"io", "iox"}, {"e2m", "e2mu"}, {"e2a", "e2au"}}
+CompatTy(a, b) == a = b \/ {a, b} \in {{"e2", "e2x"}, {"e2", "e2u"}, {"io", "iox"}, {"e2m", "e2mu"}, {"e2a", "e2au"}, {"eu", "eux"}}
 HostReaders(S) == { SetField(S, 2, [S.fields[2] EXCEPT !.ty = ty]) : ty \in { t \in HostTys : CompatTy(t, S.fields[2].ty) } }
 PairWriters == IF Tier = "quick" THEN { S \in ThreeFieldsQ : S.shape = "named" /\ S.fields[3].idx \in {2, 5} } \cup EnumHosts ELSE ThreeFieldsQ \cup EnumHosts
 \* (two changes in a row; an index the writer uses is never given another meaning: dropping a field and adding a different one
@@ -141,6 +153,8 @@ Emit == /\ (ph' = "done") =>
              LET b == DocEnc(wsch', wv') IN
              /\ Case("enc", [schema |-> wsch', val |-> wv'], [bytes |-> b, len |-> Len(b)])
              /\ Case("dec", [schema |-> wsch', bytes |-> b, rel |-> "same"], DecExp(wsch', wsch', wv', b))
+             \* C09 is about what the derived encoder really writes: whatever that is, the derived decoder must turn it back into the value and consume it all
+             /\ Case("xdec", [schema |-> wsch', wschema |-> wsch', val |-> wv', rel |-> "xsame"], DecExp(wsch', wsch', wv', b))
              /\ (wsch'.kind = "struct" /\ ~wsch'.transparent) =>
                    /\ Case("dec", [schema |-> wsch', bytes |-> WiderTop(wsch', b), rel |-> "wider"], DecExp(wsch', wsch', wv', WiderTop(wsch', b)))
                    /\ Case("dec", [schema |-> wsch', bytes |-> IndefTop(wsch', b), rel |-> "indef"], DecExp(wsch', wsch', wv', IndefTop(wsch', b)))
@@ -156,7 +170,8 @@ Emit == /\ (ph' = "done") =>
                 Case("dec", [schema |-> wsch', bytes |-> DocEncP(wsch', wv', pt), rel |-> "badtag", pt |-> pt], [ok |-> FALSE, val |-> <<>>, pos |-> 0])
         \* C09: a missing mandatory field and an unknown variant at top level are errors
         /\ (ph' = "done" /\ wsch'.kind = "struct" /\ ~wsch'.transparent) =>
-             \A i \in { j \in 1..Len(wsch'.fields) : ~wsch'.fields[j].opt /\ ~wsch'.fields[j].skip } :
+             \* (not the forwarding codecs in an array: the null that fills the gap is the encoding of their None, a value)
+             \A i \in { j \in 1..Len(wsch'.fields) : ~wsch'.fields[j].opt /\ ~wsch'.fields[j].skip /\ ~(wsch'.fields[j].ty \in CodTys /\ wsch'.enc = "array") } :
                 LET w == DropField(wsch', i)  v == SubSeq(wv', 1, i - 1) \o SubSeq(wv', i + 1, Len(wv')) IN
                 Case("dec", [schema |-> wsch', bytes |-> DocEnc(w, v), rel |-> "missing", dropped |-> i], [ok |-> FALSE, val |-> <<>>, pos |-> 0])
         /\ (ph' = "done" /\ wsch'.kind = "enum") =>
